@@ -267,6 +267,29 @@ DEFOP(pop) {
         case 2: path = pick_existing(st.A(2), (tweak % 5) == 0); if (deliberate_fail) path += "/missing"; put(op, "path", mv_str(path)); put(op, "value", gen_value(vr, go)); break;
         case 3: {
             path = pick_existing(st.A(2), true);
+            if (has_ref_nodes(w.slots[w.pending_slot]) && (tweak % 3) != 2) {
+                // two thirds of the tests on a document with references go to a reference node itself (or to one of its
+                // ancestors): the comparison then walks memory the document only borrows. The widest referenced container first.
+                std::vector<MVal *> all, refs; mv_collect(w.slots[w.pending_slot], all);
+                for (MVal *x : all) if (x->refkind != R_NONE && x->target) refs.push_back(x);
+                if (!refs.empty()) {
+                    MVal *pickd = refs[(uint64_t)st.A(2) % refs.size()];
+                    if ((tweak % 5) != 0) for (MVal *x : refs) if (x->target->kids.size() > pickd->target->kids.size()) pickd = x;
+                    std::string rp; bool ok = true;
+                    for (MVal *q = pickd; q->parent; q = q->parent) {
+                        MVal *pa = q->parent;
+                        if (pa->type == T_ARRAY) { size_t i = 0; while (i < pa->kids.size() && pa->kids[i] != q) i++; rp = "/" + I((int64_t)i) + rp; }
+                        else if (q->keystate == K_KNOWN) rp = "/" + ptr_escape(q->key) + rp;
+                        else { ok = false; break; }
+                    }
+                    if (ok && (tweak % 7) == 3 && !rp.empty()) rp = rp.substr(0, rp.rfind('/'));   // the parent of the reference node
+                    if (ok && ptr_resolve(w.pending_ref, rp)) {
+                        path = rp;
+                        w.stats.probes["patch_test_aimed_at_a_reference_node"]++;
+                        if (pickd->target->type == T_OBJECT && pickd->target->kids.size() > 32) w.stats.probes["patch_test_aimed_at_a_reference_to_a_wide_object"]++;
+                    }
+                }
+            }
             put(op, "path", mv_str(path));
             MVal *t = ptr_resolve(w.pending_ref, path);
             if (t && !deliberate_fail && has_ref_nodes(w.slots[w.pending_slot])) {
